@@ -10,7 +10,7 @@ SEEDDIR = next((a.split("=", 1)[1] for a in sys.argv if a.startswith("--dir=")),
 dirs = sorted(d for d in glob.glob(SEEDDIR + "/C??_?") if os.path.exists(os.path.join(d, "patch.diff")) and (REDO or not os.path.exists(os.path.join(d, "result.json"))))
 def ev(d):
     prop = os.path.basename(d)[:3]
-    props = ",".join([prop] + REL.get(prop, []))
+    props = ",".join([prop] + ([] if "--own-only" in sys.argv else REL.get(prop, [])))
     prev = {}
     if REDO and os.path.exists(os.path.join(d, "result.json")):
         prev = json.load(open(os.path.join(d, "result.json")))
@@ -24,6 +24,7 @@ def ev(d):
             out[k] = prev[k]
     json.dump(out, open(os.path.join(d, "result.json"), "w"), indent=1)
     return d, out
-with ThreadPoolExecutor(2) as ex:
+PAR = int(next((a.split("=", 1)[1] for a in sys.argv if a.startswith("--par=")), "2"))
+with ThreadPoolExecutor(PAR) as ex:
     for d, out in ex.map(ev, dirs):
         print(os.path.basename(d), "applies=%s demo_fail=%s demo_pass=%s suite=%s caught_by=%s" % (out.get("applies"), out.get("demo_fails_with_change"), out.get("demo_passes_without"), out.get("suite_passes"), out.get("caught_by")), {p: v.get("rc") for p, v in out.get("checks", {}).items()}, flush=True)
